@@ -1,0 +1,20 @@
+//go:build !verif
+
+package dict
+
+import "github.com/karino2/folang/pkg/frt"
+
+// Enumeration-order seam for deterministic simulation (see dict_verif.go).
+// Without the verif build tag these are identities.
+
+func verifOrderKVs[K comparable, V any](d Dict[K, V], res []frt.Tuple2[K, V]) []frt.Tuple2[K, V] {
+	return res
+}
+
+func verifOrderKeys[K comparable, V any](d Dict[K, V], res []K) []K {
+	return res
+}
+
+func verifOrderValues[K comparable, V any](d Dict[K, V], res []V) []V {
+	return res
+}
